@@ -9,7 +9,7 @@ import (
 
 // runE1 executes one rpc-sim run inside the current synctest bubble.
 func runE1(spec RunSpec, ch *Choices) *RunResult {
-	res := &RunResult{Index: spec.Index, Seed: spec.Seed, Engine: "rpc-sim", Mode: spec.Prop}
+	res := &RunResult{Index: spec.Index, Seed: spec.Seed, Engine: "rpc-sim", Mode: spec.Prop, Plan: spec.Params["plan"]}
 	x := &e1{spec: spec, res: res, ch: ch}
 	x.mode = e1ModeFor(spec.Prop)
 	x.own = map[string]bool{}
